@@ -68,6 +68,17 @@ _w("C06", 25, 600,
    "each run is a history (4-25 ops) over 1-4 tokens: create (with/without state), use by one of three node keys (fresh, re-use, key that already has a record), clock jumps to age = max-2ns..max+2ns or far, and tampering with the stored record while keeping it sealed (clear creation_time moved later; sealed creation time of a newer token transplanted; one bit of the sealed blob flipped); max lifetime 1ns..3y; storage wrapper on/off; all three back ends. Non-trivial: every use after another operation; distinct by (model liveness, key registered, tamper kind, expired, on-boundary, wrapper, back end).",
    ["'age exceeds max' is strict: at age == max either outcome is accepted; a token is considered consumed by any attempt that reached it while live",
     "removing the sealing (clearing wrapping_key_id) is outside the tamper space: unsealed records are deliberately loadable (suite case valid-no-store-wrapping)"])
+_w("C10", 30, 900,
+   "each run enrolls nodes A and B (optionally under node IDs, storage wrapper on/off, NodeIdLoader on/off) and issues 3-12 rotation requests: encrypting key in {A's current, A's previous generation, B's, unrelated} x identification in {key ID of current/encrypting/other/unknown key, node ID own/other/unknown with tape-chosen lookup order} x inner request in {honest, token nonce inside, bad signature, expired, not yet valid, for an already registered key} x wire corruption {bit flip, truncation, short/empty AEAD ciphertext} plus replays of accepted payloads and chains A0->A1->A2 where the application records previous keys and retires old records. Non-trivial: all; distinct by (encrypting key, identification, inner variant, corruption, outcome, scope size, via-previous-key).",
+   ["reference model is derived from the stored records with independent X25519 (crypto/ecdh): honored iff some record in the lookup scope decrypts the payload with its current or recorded previous key, the inner request is valid and its key is not registered; a replay is judged by the same rule",
+    "a corrupted blob may still decrypt to the original message (bits outside the authenticated ciphertext): then all honored-postconditions must hold"])
+_w("C11", 25, 600,
+   "each run evolves one (node credentials, node information) pair through 0-3 key rotations (all keys, only the certificate key = same secret/new key ID, or only the encryption keys), with the previous key recorded on one, both or neither side and either side possibly left behind; messages of seven library message types are encrypted by either side, held in flight across rotations, delivered in tape-chosen order, optionally corrupted (one bit, multi-byte overwrite, truncation, AEAD ciphertext cut to 0-40 bytes, arbitrary bytes, a valid blob of another pair). Non-trivial: every delivery that is corrupted or crosses a rotation; distinct by (direction, matches current, matches previous, rotations crossed, corruption, outcome, message type).",
+   ["expected outcome computed with crypto/ecdh and an independent key-ID computation: success iff the sender's (secret, key ID) equals the receiver's current or recorded previous one"])
+_w("C12", 25, 600,
+   "half of the runs execute every flow that writes records with storage wrappers on both sides (root rotation incl. promotion, node credential creation, authorize or token creation+use, fetch, response handling, 0-2 node credential rotations with previous keys retained on both sides) and scan every message handed to Store for every secret the harness has seen (raw and base58); the other half store one of the four record types with a tape-chosen combination of optional fields (nonce, previous key, state, bundles) and check round trip, load without / with another wrapper, and a sealed field transplanted from another record of the same type. Non-trivial: all; distinct by (flow sequence, back ends) and (record type, optional-field mask, transplanted field, back end).",
+   ["wrappers are real go-kms-wrapping aead wrappers (honour associated data)",
+    "'node-side registration nonce' is looked for in NodeCredentials records only (the server's own copy in NodeInformation is not covered by the statement)"])
 
 HOOK_COMMITS = ["54f90f1 (H2: net/splitlistener.go scheduling points + net/verif_hook_{on,off}.go)",
                 "c914c74 (H1: protocol/dialer.go SimDial seam + protocol/verif_hook_{on,off}.go)"]
@@ -78,6 +89,9 @@ NOT_APPLICABLE["C20"] = ("pure function of its arguments (BreakIntoNextProtos/Co
                          "its failure modes are reached by the simulated workloads of C14 (malformed entries in a hostile ClientHello) and C07/C16 (honest payloads needing >99 chunks)")
 
 LEVEL_TEXT = {
+    "C10": "seeded exploration of rotation requests, lookup orders, corruptions, replays and rotation chains against a model recomputed from stored records with independent cryptography.",
+    "C11": "seeded simulation of two parties exchanging encrypted messages over a delaying, reordering, corrupting channel across key rotations; oracle is an independent X25519/key-ID computation.",
+    "C12": "seeded exploration of all writing flows with a byte-level scan of everything handed to storage, plus record-level round-trip / wrong-wrapper / misdirected-sealed-field checks for every optional-field combination.",
     "C01": "seeded exploration of operator/request histories against an executable authorization model; every issued response is additionally opened with every key the harness holds to check it is bound to the requester.",
     "C06": "seeded exploration of token histories with clock jumps to the expiry boundary and sealed-record tampering against a token-liveness model; stored bytes are scanned for token material.",
     "C08": "seeded exploration of stored-state orderings and rotation histories on the fake clock against an executable decision table written from the statement, with exact post-conditions (windows, overlap, durability, no-op identity).",
